@@ -24,6 +24,8 @@ pub struct Heading {
 
 #[derive(Clone, Debug, PartialEq)]
 pub struct LinkOcc {
+    /// byte offset of the link's first character within its line
+    pub col: usize,
     pub line: usize,
     pub dest: String,
     pub text: String,
@@ -141,6 +143,7 @@ pub fn read(text: &str, dir: &str) -> Reading {
     let mut code: Option<String> = None;
     let mut skip_text_depth = 0usize;
     let mut link_stack: Vec<(usize, String, String, String, bool)> = vec![];
+    let mut link_cols: Vec<usize> = vec![];
     let mut in_meta = false;
     let mut in_html = false;
     let mut cell = (0usize, 0usize);
@@ -274,6 +277,7 @@ pub fn read(text: &str, dir: &str) -> Reading {
                         last_top_was_link = true;
                     }
                     depth_inline += 1;
+                    link_cols.push(range.start - text[..range.start].rfind('\n').map(|i| i + 1).unwrap_or(0));
                     link_stack.push((r.line_of(range.start), dest_url.to_string(), kind.to_string(), String::new(), skipping));
                 }
                 Tag::Image { dest_url, .. } => {
@@ -283,6 +287,7 @@ pub fn read(text: &str, dir: &str) -> Reading {
                         last_top_was_link = false;
                     }
                     depth_inline += 1;
+                    link_cols.push(0);
                     link_stack.push((r.line_of(range.start), dest_url.to_string(), "image".to_string(), String::new(), false));
                 }
                 Tag::Emphasis | Tag::Strong | Tag::Strikethrough => {
@@ -369,6 +374,7 @@ pub fn read(text: &str, dir: &str) -> Reading {
                 TagEnd::MetadataBlock(_) => in_meta = false,
                 TagEnd::Link | TagEnd::Image => {
                     depth_inline = depth_inline.saturating_sub(1);
+                    let col = link_cols.pop().unwrap_or(0);
                     if let Some((line, dest, kind, txt, skipping)) = link_stack.pop() {
                         if skipping {
                             skip_text_depth -= 1;
@@ -382,7 +388,7 @@ pub fn read(text: &str, dir: &str) -> Reading {
                         r.last_link_atom = Some((r.out.atoms.len() - 1, dest.clone(), kind.clone()));
                         if kind != "image" {
                             let ctx = r.ctx();
-                            r.out.links.push(LinkOcc { line, dest, text: txt, kind, block_level: false, ctx, holder: holder.clone() });
+                            r.out.links.push(LinkOcc { col, line, dest, text: txt, kind, block_level: false, ctx, holder: holder.clone() });
                         }
                     }
                 }
